@@ -206,6 +206,43 @@ def check_structural(corr: int, k: int, w0: int, covn: int) -> bool:
 def check(k: int, covn: int, w0: int, w1: int, ign: int, corr: int, wtc: int) -> bool:
     return _verdict(k, covn, w0, w1, ign, corr, wtc)
 
+BIG = [1, 1000, 3000000000, 2 ** 45]
+
+def check_magnitude(scale: int, d: int, where: int, asfloat: int) -> bool:
+    """
+    pre: 0 <= scale <= 3
+    pre: -1 <= d <= 1
+    pre: 0 <= where <= 1
+    pre: 0 <= asfloat <= 1
+    post: _
+    """
+    # conservation must be decided exactly at every magnitude: path s->a->b->t with flow B everywhere except B+d on one edge
+    sc, dd, wh, af = _conc(scale, 0, 3), _conc(d, -1, 1), _conc(where, 0, 1), _conc(asfloat, 0, 1)
+    if d == 0:
+        pass
+    with NoTracing():
+        B = BIG[sc] + (1 if dd < 0 else 0)
+        fl = [B, B, B]
+        fl[1 + wh] = B + dd
+        if af:
+            fl = [float(x) for x in fl]
+        G = nx.DiGraph()
+        G.add_edge("s", "a", flow=fl[0]); G.add_edge("a", "b", flow=fl[1]); G.add_edge("b", "t", flow=fl[2])
+        kw = dict(weight_type=float if af else int)
+        if KMODEL:
+            kw["k"] = 1
+        try:
+            m = getattr(fp, CLS)(G, "flow", **kw)
+            m.solve()
+            outcome = "ok"
+        except ValueError:
+            outcome = "ValueError"
+        except Exception as e:
+            outcome = type(e).__name__
+    if dd != 0:
+        return outcome == "ValueError"
+    return outcome != "ValueError"
+
 def check_reuse(steps: List[int]) -> bool:
     """
     pre: len(steps) == 3
@@ -262,6 +299,7 @@ CLASSES = {
 
 def gen_tasks(tier, seed):
     tasks = [{"cls": c, "fn": fn, **v} for fn in ("check_structural", "check_numeric", "check_ignore", "check_reuse") for c, v in CLASSES.items()]
+    tasks += [{"cls": c, "fn": "check_magnitude", **v} for c, v in CLASSES.items() if v["flowdec"]]
     for i, t in enumerate(tasks):
         t["tid"] = i
     return tasks
@@ -313,6 +351,8 @@ def _normalise(call):
         return ("check", [1, 4, w0, w1, ign, 0, 0], {})
     if fn == "check_reuse":
         return ("check_reuse", list(pos), {})
+    if fn == "check_magnitude":
+        return ("check_magnitude", list(pos), dict(kw))
     if fn == "check_structural":
         corr, k, w0, covn = pos
         return ("check", [k, covn, w0, 3, -1, corr, 0], {})
@@ -325,6 +365,8 @@ def _diag(task, call):
     fn, pos, kw = call
     if fn == "check_reuse":
         return "graph-object-reused-after-in-place-edit"
+    if fn == "check_magnitude":
+        return "conservation-not-decided-exactly-at-large-magnitude"
     names = ["k", "covn", "w0", "w1", "ign", "corr", "wtc"]
     a = dict(zip(names, pos))
     a.update(kw)
